@@ -83,14 +83,16 @@ Proof. exact ctrl_tokens_range. Qed.
 
 (* ---- reject mode: envelopes --------------------------------------------------------------------- *)
 
-(* tokens admitted for v <= (T_v + burst) + T_v * elapsed / D, elapsed counted from t0 <= first
-   sight of v to the last request of v; stated without division *)
+(* tokens admitted for v <= (T_v + burst) + T_v * elapsed / D, elapsed counted from the time v
+   was first seen ([first_seen]: arrival time of v's first request) to v's last request; stated
+   without division *)
 Theorem C05_envelope_total : forall r K v t0 tmax calls,
   guard r v t0 tmax -> fits r K calls -> calls_ok t0 tmax calls -> 0 < tok_count r v ->
   let T := tok_count r v in let B := r_burst r in let D := r_dur r * 1000 in
   let adm := adm_of v calls (snd (ctrl_run r metric0 calls)) in
-  D * (admitted_tokens (proj v calls) adm - (T + B)) <= T * (last_time t0 (proj v calls) - t0).
-Proof. exact ctrl_envelope_total. Qed.
+  let t1 := first_seen t0 (proj v calls) in
+  D * (admitted_tokens (proj v calls) adm - (T + B)) <= T * (last_time t1 (proj v calls) - t1).
+Proof. exact ctrl_envelope_total_first. Qed.
 
 (* tokens admitted for v at arrival times inside any [lo, hi] no longer than one duration
    <= 2 * (T_v + burst) *)
@@ -224,6 +226,52 @@ Theorem C05_controller_is_reject_check : forall r m now k b, is_reject r = true 
   perform_checking r m now k b = reject_check r m now k b.
 Proof. exact perform_checking_reject. Qed.
 
+(* ---- from the public API to controller histories ---------------------------------------------- *)
+
+(* on a resource guarded by one QPS rule r, every public-API history (any other resources and
+   rules around it, any Entry/Exit/Tick order) drives r's controller with exactly the calls
+   [trace] collects - one per Entry of the resource that carries the selected argument, arrival =
+   the virtual clock in ms, batch = the batch count - and the caller observes exactly the
+   controller's decisions; [pc_run] is [ctrl_run] for a reject rule and [thr_run] for a
+   throttling rule, so the controller-level theorems above speak about what Entry returns *)
+Theorem C05_api_single_rule : forall rules adv res r, rules res = [r] -> r_metric r <> 0 ->
+  forall ops s m, metrics_of rules s res = [m] ->
+  let '(cs, os) := trace rules adv res r s ops in
+  map obs_of_dec (snd (pc_run r m cs)) = os /\
+  metrics_of rules (fst (run rules adv s ops)) res = [fst (pc_run r m cs)].
+Proof. exact run_single_rule. Qed.
+
+Theorem C05_api_controller_runs : forall r,
+  (is_reject r = true -> forall calls m, pc_run r m calls = ctrl_run r m calls) /\
+  (is_throttle r = true -> forall calls m, pc_run r m calls = thr_run r m calls).
+Proof. exact (fun r => conj (pc_run_reject r) (pc_run_throttle r)). Qed.
+
+Example C05_api_single_rule_nonvacuous :
+  api_rules 0 = [d_rule] /\ r_metric d_rule <> 0 /\ metrics_of api_rules (init 0) 0 = [metric0] /\
+  trace api_rules true 0 d_rule (init 0) api_ops = ([(0, 5, 1); (0, 5, 1)], [OPass []; OPass []]).
+Proof. vm_compute. repeat split; try reflexivity. discriminate. Qed.
+
+
+(* small instances for the remaining hypotheses *)
+Example C05_lockstep_nonvacuous : lockstep metric0 /\
+  map fst (m_time (fst (ctrl_run d_rule metric0 d_calls))) = [5; 6] /\
+  map fst (m_tok (fst (ctrl_run d_rule metric0 d_calls))) = [5; 6].
+Proof. vm_compute. repeat split; reflexivity. Qed.
+
+Example C05_nonpositive_threshold_nonvacuous :
+  let r := with_threshold d_rule 0 in
+  tok_count r 5 <= 0 /\ snd (ctrl_run r metric0 [(d_t0, 5, 1); (d_t0 + 5000, 5, 1)]) = [DBlock None; DBlock None].
+Proof. vm_compute. split; [discriminate|reflexivity]. Qed.
+
+Example C05_specific_threshold_nonvacuous :
+  alookup 6 (r_spec d_rule) = Some 1 /\ tok_count d_rule 6 = 1 /\ tok_count d_rule 5 = 2.
+Proof. vm_compute. repeat split; reflexivity. Qed.
+
+Example C05_no_arg_unlimited_nonvacuous :
+  let q := {| q_args := []; q_atts := [(3, Some 5)]; q_batch := 4294967295 |} in
+  Forall (fun r => extract r q = None) [d_rule; t_rule] /\ is_reject d_rule = true /\ is_throttle t_rule = true.
+Proof. vm_compute. repeat split; repeat constructor. Qed.
+
 Print Assumptions LRU_refines_map.
 Print Assumptions LRU_evicts_oldest.
 Print Assumptions C05_lockstep.
@@ -245,3 +293,5 @@ Print Assumptions C05_no_arg_unlimited.
 Print Assumptions C05_specific_threshold.
 Print Assumptions C05_specific_threshold_check.
 Print Assumptions C05_controller_is_reject_check.
+Print Assumptions C05_api_single_rule.
+Print Assumptions C05_api_controller_runs.
